@@ -80,6 +80,13 @@ func CheckStorageHealth(storage SlabStorage, expectedNumberOfRootSlabs int) (map
 		}
 	}
 
+	// Every referenced slab must be in storage.
+	for id, parentID := range parentOf {
+		if _, ok := slabs[id]; !ok {
+			return nil, NewSlabNotFoundErrorf(id, "failed to get slab referenced by %s", parentID)
+		}
+	}
+
 	rootsMap := make(map[SlabID]struct{})
 	visited := make(map[SlabID]struct{})
 	var id SlabID
